@@ -68,7 +68,11 @@ MANIFEST = {
                   'once, nothing needed is forgotten; invariant over all continue/state-change sequences; '
                   '(3) check-lock-recheck-act protocol: for any number of racing transactions and any interleaving the join row '
                   'is inserted / the join started at most once, exactly once when all finished, with the guards extracted '
-                  'from the source into Gen/Locks.v. Models tied to /repo by differential runs of the real controller '
+                  'from the source into Gen/Locks.v; (4) whole-engine model (Model/Engine.v, every program, id order and event '
+                  'list without operator reruns): one task execution per join key, a task execution - other than a join on a '
+                  'cycle - never gets a second action execution however many branches, duplicates, refresh jobs, pauses and '
+                  'resumes arrive, and every join whose logical state changes when a task execution changes gets a refresh job '
+                  '(completeness of find_indirectly_affected_task_executions). Models tied to /repo by differential runs of the real controller '
                   'methods on parsed definitions with generated rows, of the real Task.defer/_refresh_task_state bodies under '
                   'generated schedules, and by an oracle on whole-engine runs under the deterministic driver.',
     'level_note': 'Trusted: YAML->spec parsing (only find_outbound_task_names/get_task_requires are compared with the '
